@@ -49,11 +49,15 @@ def doc_from_seed(rng):
         # behave ends a doc-string at a line that STARTS with the quotes: text behind them is ignored
         out_ = []
         opened = False
+        variant_ = rng.randrange(2)
         for ln in text.split("\n"):
             st_ = ln.strip()
             if st_ in (u'"""', u"'''"):
                 if opened:
-                    ln = ln + u" end of text"
+                    if variant_ == 0:
+                        ln = ln + u" end of text"
+                    elif len(ln) - len(ln.lstrip()) >= 2:
+                        ln = ln[2:]         # closing quotes indented LESS than the opening ones
                 opened = not opened
             out_.append(ln)
         text = u"\n".join(out_)
@@ -159,6 +163,7 @@ def enumerate_faults(feat, text, lm, rng):
         yield ("cat:malformed-tag", at, insert(at, u"  @good bad-token"), at)
         # (faulty user text that ends up quoted in the error message: braces, percent signs)
         yield ("cat:malformed-tag-braces", at, insert(at, u"  @good {bad} %s %(x)d"), at)
+        yield ("cat:malformed-tag-after-tab", at, insert(at, u"  @good\tbad-token"), at)
     # second background
     for key, v in lm.items():
         if key.endswith(".BG"):
